@@ -89,6 +89,7 @@ Proof.
   - split_alias Hpre; run_leaf.
   - split_alias Hpre; run_leaf.
   - split_alias Hpre; run_leaf.
+  - split_alias Hpre; run_leaf.
 Qed.
 
 Lemma leaf_pure_length (l : leaf T) n v : wf_leaf n l -> length v = n -> length (leaf_pure l v) = n.
